@@ -15,7 +15,12 @@ Tie (all through the real compiler of /repo's working tree):
 * the structure of the emitted library is compared with the Lean mirror `emitHier d`: entity interfaces (names,
   directions, types, order), every template emitted exactly once, sub-entities before their users, every formal
   associated with exactly its actual (conversions in the association are part of a correct association and
-  are checked for type-correctness), defaults of instance-driven signals.
+  are checked for type-correctness), defaults of instance-driven signals;
+* declared entity names may collide (several DISTINCT templates from one factory / parametrised class, names differing in
+  case, renamed forms, labels, the parent's name, reserved words): the emitted library must declare pairwise distinct
+  names (case-insensitively), entities are identified by resolving the instance statements from the top unit, every
+  template must own exactly one unit with its declared ports, and the unit of every renamed / name-sharing template is
+  simulated on its own against Lean simFlat of that template.
 """
 
 import re
@@ -310,11 +315,26 @@ def render_assign(ref, e, sigs):
     return f"{base}[{lo + w - 1}:{lo}].unsigned <<= {rhs}"
 
 
+PY_TAKEN = {"cohdl", "std", "Bit", "BitVector", "Unsigned", "Signed", "Port", "Signal", "self", "logic", "proc"}
+
+
+def factory_ok(cname):
+    import keyword
+    return cname.isidentifier() and not keyword.iskeyword(cname) and cname not in PY_TAKEN and not re.fullmatch(r"(E\d+|Top|make_\w+|[a-z]\d+|i\d+_\w+)", cname)
+
+
 def render_template(t, templates):
     sigs = sig_table(t)
     fused = t.get("fused", {})
     fdef = {fused[n]: d for (n, k, w, d) in t["locals"] if n in fused}
-    L = [f"class {t['name']}(cohdl.Entity):"]
+    cname, style = t.get("cname", t["name"]), t.get("style", "plain")
+    if cname == t["name"]:
+        L = [f"class {t['name']}(cohdl.Entity):"]
+    elif style == "factory" and factory_ok(cname):
+        # the usual way to write a parametrised entity: every call of the factory returns a NEW class of that name
+        L = [f"class {cname}(cohdl.Entity):"]
+    else:
+        L = [f"class {t['name']}(cohdl.Entity, name={cname!r}):"]
     for (n, d, k, w) in t["ports"]:
         if n in fdef:
             L.append(f"    {n} = Port.output({pyty(k, w)}, default={dflt_literal(k, w, fdef[n])})")
@@ -364,6 +384,8 @@ def render_template(t, templates):
             L.append("            with cohdl.always:")
             for i in always:
                 L.append("                " + inst_line(i))
+    if L[0].startswith(f"class {cname}(") and cname != t["name"]:
+        L = [f"def make_{t['name']}():"] + ["    " + l if l else l for l in L] + [f"    return {cname}", "", "", f"{t['name']} = make_{t['name']}()"]
     return "\n".join(L) + "\n"
 
 
@@ -472,56 +494,14 @@ def sx_template(design, name):
 
 
 
-_FCONV = re.compile(r"^(\s*)(unsigned|signed|std_logic_vector)\((\w+)\) => (.*?)(,?)\s*$")
-_INST = re.compile(r"^\s*(\w+): entity (\w+)\.(\w+)")
-_ENT = re.compile(r"entity (\w+) is\s+port \((.*?)\);\s*end", re.S)
-
-
-def lower_formal_conversions(text):
-    """`conv(formal) => actual` (output ports) rewritten into an intermediate signal of the formal's type and
-    `actual <= conv(tmp);`.  harness.vhdl_sim elaborates such associations itself, but (at the time of writing)
-    binds the same hidden name for every converted output of one instance; this local, semantically equivalent
-    lowering keeps C12 independent of that (see notes/C12.md, SHARED-CHANGE-REQUEST)."""
-    lines = text.split("\n")
-    if not any(_FCONV.match(l) for l in lines):
-        return text
-    ptypes = {}
-    for m in _ENT.finditer(text):
-        for line in m.group(2).split("\n"):
-            mm = re.match(r"\s*(\w+) : (in|out|inout) (.*?);?\s*$", line)
-            if mm:
-                ptypes[(m.group(1).lower(), mm.group(1).lower())] = mm.group(3)
-    out, decl_at, ent, inst_at, k, decls = [], None, None, None, 0, []
-    for line in lines:
-        if line == "begin":
-            decl_at = len(out)
-        m = _INST.match(line)
-        if m:
-            ent, inst_at = m.group(3), len(out)
-        m = _FCONV.match(line)
-        if m and ent is not None:
-            ind, conv, formal, actual, comma = m.groups()
-            tmp = f"c12conv{k}"
-            k += 1
-            decls.append((decl_at, f"  signal {tmp} : {ptypes[(ent.lower(), formal.lower())]};"))
-            out.insert(inst_at, f"  {actual} <= {conv}({tmp});")
-            inst_at += 1
-            out.append(f"{ind}{formal} => {tmp}{comma}")
-            continue
-        out.append(line)
-    for at, d in sorted(decls, key=lambda x: -x[0]):
-        out.insert(at, d)
-    return "\n".join(out)
-
-
 def raw(d, name):
     v = d.get_raw(name)
     return getattr(v, "bits", None) or getattr(v, "v", None) or str(v)
 
 
-def sim_vhdl(text, in_ports, out_ports, inputs):
+def sim_vhdl(text, in_ports, out_ports, inputs, top=None):
     """inputs: list of {port: nat}; returns per clock 'pre|post' with the raw bit strings of the outputs"""
-    d = Design(lower_formal_conversions(text), top="Top")
+    d = Design(text, top=top)  # top=None: the last entity of the text
     d.set("clk", 0)
     for (n, k, w) in in_ports:
         d.set(n, 0 if k == "bit" else format(0, f"0{w}b"))
@@ -540,9 +520,9 @@ def sim_vhdl(text, in_ports, out_ports, inputs):
 
 
 def _sim_task(task):
-    text, in_ports, out_ports, inputs = task
+    text, in_ports, out_ports, inputs = task[:4]
     try:
-        return {"rows": sim_vhdl(text, in_ports, out_ports, inputs)}
+        return {"rows": sim_vhdl(text, in_ports, out_ports, inputs, *task[4:])}
     except VhdlTypeError as e:
         return {"err": "type", "msg": str(e)[:300]}
     except VhdlRuntimeError as e:
@@ -579,18 +559,21 @@ def library_structure(text):
     """[(entity name, [(port, dir, kind, w)], {signal: (kind, w, has_default)}, [(label, entity, {formal: (root, lo, w, actual_conv, formal_conv, root_kind)})])]
     in the order of the emitted text"""
     units = parse(text)
-    ents, order = {}, []
+    order = []
     for u in units:
         if u["unit"] == "entity":
-            ents[u["name"]] = {"ports": [(p["name"], p["dir"]) + canon_type(p["type"]) for p in u["ports"]], "arch": None}
-            order.append(u["name"])
-    for u in units:
-        if u["unit"] != "entity":
-            ents[u["entity"]]["arch"] = u
+            order.append({"name": u["name"], "ports": [(p["name"], p["dir"]) + canon_type(p["type"]) for p in u["ports"]], "arch": None})
+        else:
+            # the architecture belongs to the closest preceding entity unit of that name (a library with two
+            # units of one name is reported by the caller; the units are kept apart here)
+            for e in reversed(order):
+                if e["name"].lower() == u["entity"].lower() and e["arch"] is None:
+                    e["arch"] = u
+                    break
     res = []
-    for name in order:
-        e = ents[name]
-        a = e["arch"]
+    for e in order:
+        name = e["name"]
+        a = e["arch"] or {"decls": [], "stmts": []}
         sigs = {p[0]: (p[2], p[3], False) for p in e["ports"]}
         outs = {p[0] for p in e["ports"] if p[1] == "out"}
         for d in a["decls"]:
@@ -637,21 +620,22 @@ def library_structure(text):
 
 
 def check_structure(design, text, model_emit):
-    """returns a list of (signature, message) property failures and a dict of soft observations"""
+    """returns a list of (signature, message) property failures, soft observations and the binding
+    template id -> emitted entity name.  Declared entity names may collide (factories, parametrised classes,
+    names differing in case, reserved words ...): the compiler has to give the entities of one library pairwise
+    distinct names, so entities are identified through the instance statements, starting at the top (last unit)."""
     T = design["templates"]
     fails, soft = [], {}
     lib = library_structure(text)
     names = [e[0] for e in lib]
     used = topo_names(design)
-    # each template exactly once
-    for n in used:
-        c = names.count(n)
-        if c != 1:
-            fails.append((f"emitted-{c}-times", f"entity template {n} is emitted {c} times (instances: {sum(1 for t in T.values() for i in t['insts'] if i['t'] == n)})"))
-    for n in names:
-        if n not in used:
-            fails.append(("unknown-entity", f"emitted entity {n} is not a template of the design"))
-    # model: emitHier
+    # pairwise distinct entity names (VHDL identifiers are case-insensitive)
+    low = [n.lower() for n in names]
+    for n in sorted(set(low)):
+        if low.count(n) > 1:
+            fails.append(("entity-name-collision", f"the emitted library declares {low.count(n)} entities named `{n}` (library order {names}; declared names "
+                          f"{[T[u].get('cname', u) for u in used]}): a name does not identify one template"))
+    # model: emitHier (template ids as names)
     m_ents = []
     for chunk in model_emit.split(" ; "):
         mm = re.match(r"^(\w+)\[(.*?)\]\{(.*?)\}<(.*)>$", chunk)
@@ -666,61 +650,101 @@ def check_structure(design, text, model_emit):
                 pm[f] = (root, int(lo), int(w))
             insts.append((im.group(2), pm))
         m_ents.append((mm.group(1), [(p[0], p[1], p[2], int(p[3])) for p in ports], locs, insts))
-    soft["library_order_equals_model"] = names == [e[0] for e in m_ents]
     m_by = {e[0]: e for e in m_ents}
-    pos = {n: i for i, n in enumerate(names)}
-    for (name, ports, sigs, insts) in lib:
-        if name not in T:
-            continue
-        t = T[name]
+    by_name = {}
+    for idx, e in enumerate(lib):
+        by_name.setdefault(e[0].lower(), []).append(idx)
+    bind, owner = {}, {}          # template id -> unit index ; unit index -> template id
+    if not lib:
+        return [("empty-library", "no entity is emitted")], soft, {}
+    top_idx = len(lib) - 1
+    bind[design["top"]] = top_idx
+    owner[top_idx] = design["top"]
+    todo = [design["top"]]
+    while todo:
+        tid = todo.pop()
+        t = T[tid]
+        (name, ports, sigs, insts) = lib[bind[tid]]
+        shown = f"{name} (template {tid}, declared name {t.get('cname', tid)})"
         # interface
         decl = [(p[0], p[1], p[2], p[3]) for p in t["ports"]]
         if ports != decl:
-            fails.append(("interface", f"entity {name}: emitted ports {ports} differ from the declared ports {decl}"))
-        if name in m_by and m_by[name][1] != ports:
-            fails.append(("interface-model", f"entity {name}: emitted ports {ports} differ from emitHier {m_by[name][1]}"))
-        # sub-entities first
+            fails.append(("interface", f"entity {shown}: emitted ports {ports} differ from the declared ports {decl}"))
+        if tid in m_by and m_by[tid][1] != decl:
+            fails.append(("interface-model", f"{tid}: emitHier ports {m_by[tid][1]} differ from the declared ports {decl}"))
+        # port maps: every instance statement = one instantiation of the template (identified by its associations)
+        want = {tuple(sorted((f, ref) for (f, ref, _pl) in i["acts"])): i for i in t["insts"]}
+        got = {}
+        dups = False
         for (label, ent, pm, dup) in insts:
-            if ent not in pos or pos[ent] >= pos[name]:
-                fails.append(("order", f"entity {ent} is instantiated by {name} but emitted after it (library order {names})"))
-        # port maps: the multiset of (entity, formal->actual) of the architecture = the instances of the template
-        want = sorted((i["t"], tuple(sorted((f, ref) for (f, ref, _pl) in i["acts"]))) for i in t["insts"])
-        got = sorted((ent, tuple(sorted((f, (a[0], a[1], a[2])) for f, a in pm.items()))) for (label, ent, pm, dup) in insts)
-        if want != got or any(dup for (_l, _e, _p, dup) in insts):
-            w2 = [x for x in want if x not in got]
-            g2 = [x for x in got if x not in want]
-            fails.append(("portmap", f"architecture of {name}: port maps {g2} where the design connects {w2}"))
-        if name in m_by:
-            mw = sorted((ent, tuple(sorted(pm.items()))) for (ent, pm) in m_by[name][3])
-            if mw != want:
-                fails.append(("portmap-model", f"{name}: emitHier port maps {mw} differ from the design {want}"))
-        # type-correct associations
-        for (label, ent, pm, dup) in insts:
-            if ent not in T:
+            key = tuple(sorted((f, (a[0], a[1], a[2])) for f, a in pm.items()))
+            dups = dups or dup or key in got
+            got[key] = (label, ent, pm)
+        if set(want) != set(got) or dups or len(insts) != len(t["insts"]):
+            w2 = [(want[k]["t"], k) for k in want if k not in got]
+            g2 = [(got[k][1], k) for k in got if k not in want]
+            fails.append(("portmap", f"architecture of {shown}: port maps {g2} where the design connects {w2}"))
+        if tid in m_by:
+            mw = sorted((ent, tuple(sorted(pm.items()))) for (ent, pm) in m_by[tid][3])
+            dw = sorted((i["t"], k) for k, i in want.items())
+            if mw != dw:
+                fails.append(("portmap-model", f"{tid}: emitHier port maps {mw} differ from the design {dw}"))
+        for key in want:
+            if key not in got:
                 continue
-            fdecl = {p[0]: p for p in T[ent]["ports"]}
+            sub = want[key]["t"]
+            label, ent, pm = got[key]
+            cands = by_name.get(ent.lower(), [])
+            if not cands:
+                fails.append(("unknown-entity", f"{shown}.{label} instantiates `{ent}` which is not declared in the library {names}"))
+                continue
+            # a VHDL library holds one unit per name: with several, the instance cannot be bound to `its` template
+            idx = cands[0] if len(cands) == 1 else next((c for c in cands if owner.get(c) == sub), cands[-1])
+            if owner.get(idx, sub) != sub:
+                fails.append(("entity-shared-by-templates",
+                              f"{shown}.{label} was created from template {sub} (declared name {T[sub].get('cname', sub)}) but is bound to entity `{ent}`, "
+                              f"which is the entity of template {owner[idx]} (declared name {T[owner[idx]].get('cname', owner[idx])})"))
+                continue
+            if sub in bind and bind[sub] != idx:
+                fails.append(("template-emitted-twice", f"instances of template {sub} are bound to `{lib[bind[sub]][0]}` and to `{ent}`: the template is not shared by its instances"))
+                continue
+            if idx >= bind[tid]:
+                fails.append(("order", f"entity `{ent}` is instantiated by `{name}` but emitted after it (library order {names})"))
+            if sub not in bind:
+                bind[sub] = idx
+                owner[idx] = sub
+                todo.append(sub)
+            # type-correct associations
+            fdecl = {p[0]: p for p in T[sub]["ports"]}
             for f, (root, lo, w, aconv, fconv, akind) in pm.items():
                 if f not in fdecl:
                     continue
                 _, fdir, fk, fw = fdecl[f]
                 eff_actual = aconv or akind          # type seen by the formal
                 eff_formal = fconv or fk             # type seen by the actual
-                bad = False
                 if fdir == "in":
                     bad = fconv is not None or eff_actual != fk or (aconv and "bit" in (akind, fk))
                 else:
                     bad = aconv is not None or eff_formal != akind or (fconv and "bit" in (akind, fk))
                 if bad or w != fw:
                     fails.append((f"portmap-illtyped:{fdir}:{fk}<={akind}",
-                                  f"{name}.{label}: formal {f} : {fdir} {fk}[{fw}] is associated with {root}[{lo}+:{w}] of VHDL type {akind}"
+                                  f"{shown}.{label}: formal {f} : {fdir} {fk}[{fw}] is associated with {root}[{lo}+:{w}] of VHDL type {akind}"
                                   f" (conversions: actual {aconv}, formal {fconv}) - not a legal VHDL association"))
         # defaults of signals connected as whole objects to instance outputs
-        if name in m_by:
-            for ln, md in m_by[name][2].items():
+        if tid in m_by:
+            for ln, md in m_by[tid][2].items():
                 if ln in sigs and (md != "-") != sigs[ln][2]:
                     loc = {l[0]: l for l in t["locals"]}[ln]
                     soft.setdefault("default_mismatch", []).append(f"{name}.{ln}: emitted default={sigs[ln][2]} model={md} declared={loc[3]}")
-    return fails, soft
+    # each template exactly once: as many design units as templates, each owned by one template
+    if len(lib) != len(used):
+        fails.append((f"emitted-{len(lib)}-entities-for-{len(used)}-templates",
+                      f"{len(lib)} entities {names} are emitted for the {len(used)} templates {[(u, T[u].get('cname', u)) for u in used]}"))
+    for idx, e in enumerate(lib):
+        if idx not in owner and not any(f[0] in ("portmap", "entity-shared-by-templates") for f in fails):
+            fails.append(("unknown-entity", f"emitted entity `{e[0]}` is not reached from the top entity"))
+    soft["library_order_equals_model"] = [owner.get(i) for i in range(len(lib))] == [e[0] for e in m_ents]
+    return fails, soft, {tid: lib[idx][0] for tid, idx in bind.items()}
 
 
 # ---------------------------------------------------------------------------------------------------
@@ -798,6 +822,96 @@ def shrink_inputs(inputs, fails):
     return inputs
 
 
+RESERVED_NAMES = ["buffer", "Signal", "Entity", "register", "Process", "Block", "Label", "Open", "Bus", "Unsigned", "std_logic", "rising_edge"]
+
+
+def assign_names(rng, design, scheme):
+    """declared entity names of the non-top templates.  `clash`: several DISTINCT templates share one class name
+    (factory / parametrised classes), differ only in case, carry the renamed form of another (`Gate1`), the name
+    of their parent / of the top entity, an instance label or a reserved word - at whatever depth and order the
+    generated tree puts them"""
+    T = design["templates"]
+    ids = [n for n in topo_names(design) if n != design["top"]]
+    if scheme == "unique" or not ids:
+        return
+    base = rng.choice(["Gate", "Cell", "unit", "Stage", "X"])
+    parents = {}
+    for n in topo_names(design):
+        for i in T[n]["insts"]:
+            parents.setdefault(i["t"], []).append(n)
+    order = list(ids)
+    rng.shuffle(order)
+    for k, n in enumerate(order):
+        c = rng.random()
+        if k < 3 or c < 0.35:
+            name = base
+        elif c < 0.5:
+            name = rng.choice([base.lower(), base.upper(), base.capitalize(), base.swapcase()])
+        elif c < 0.6:
+            name = base + rng.choice(["1", "2", "_1"])
+        elif c < 0.7:
+            name = "comp_" + base + rng.choice(["", "1"])
+        elif c < 0.8:
+            par = rng.choice(parents[n])
+            name = T[par].get("cname", par)
+        elif c < 0.87:
+            name = rng.choice(["Top", "top", "TOP", "arch_Top", "comp_Top"])
+        elif c < 0.95:
+            name = rng.choice(RESERVED_NAMES)
+        else:
+            name = n
+        T[n]["cname"] = name
+        T[n]["style"] = rng.choice(["factory", "kw"])
+
+
+def gate_corpus():
+    """fixed minimal naming designs: distinct one-gate templates with colliding declared names below one top
+    (siblings, nested, different orders); the output of every instance is a top output"""
+    ops = ["and", "or", "xor"]
+
+    def gate(tid, cname, op, style, child=None):
+        t = {"name": tid, "cname": cname, "style": style,
+             "ports": [("clk", "in", "bit", 1), ("a", "in", "uns", 2), ("b", "in", "uns", 2), ("q", "out", "uns", 2)],
+             "locals": [], "logic": [], "insts": []}
+        if child is None:
+            t["logic"].append(("comb", ("q", 0, 2), (op, 2, ("r", "a", 0, 2), ("r", "b", 0, 2))))
+        else:
+            t["locals"].append(("m", "uns", 2, None))
+            t["insts"].append({"t": child, "place": "arch", "acts": [("a", ("a", 0, 2), True), ("b", ("b", 0, 2), True), ("q", ("m", 0, 2), True), ("clk", ("clk", 0, 1), True)]})
+            t["logic"].append(("comb", ("q", 0, 2), (op, 2, ("r", "m", 0, 2), ("r", "b", 0, 2))))
+        return t
+
+    def top(children):
+        ports = [("clk", "in", "bit", 1), ("a", "in", "uns", 2), ("b", "in", "uns", 2)] + [(f"q{k}", "out", "uns", 2) for k in range(len(children))]
+        t = {"name": "Top", "ports": ports, "locals": [], "logic": [], "insts": []}
+        for k, c in enumerate(children):
+            t["insts"].append({"t": c, "place": "arch", "acts": [("q", (f"q{k}", 0, 2), True), ("b", ("b", 0, 2), True), ("a", ("a", 0, 2), True), ("clk", ("clk", 0, 1), True)]})
+        return t
+
+    out = []
+    # siblings: N distinct templates, names from a list
+    for names in (["Gate", "Gate", "Gate"], ["Gate", "Gate", "Gate1"], ["Gate", "Gate1", "Gate"], ["Gate1", "Gate", "Gate"],
+                  ["gate", "GATE", "Gate"], ["buffer", "Buffer"], ["Top", "top"], ["comp_Gate", "Gate", "Gate"],
+                  ["Gate", "Gate", "Gate", "Gate"], ["Signal", "signal", "Signal1"]):
+        for style in ("factory", "kw"):
+            T = {f"E{k}": gate(f"E{k}", nm, ops[k % 3], style) for k, nm in enumerate(names)}
+            T["Top"] = top([f"E{k}" for k in range(len(names))])
+            out.append({"templates": T, "top": "Top"})
+    # nested: chain of same-named templates, and a same-named sibling after / before the chain
+    for order in ((0, 1), (1, 0)):
+        T = {"E0": gate("E0", "Gate", "and", "factory"), "E1": gate("E1", "Gate", "or", "factory", child="E0"),
+             "E2": gate("E2", "Gate", "xor", "factory", child="E1"), "E3": gate("E3", "Gate", "or", "kw")}
+        T["Top"] = top([["E2", "E3"][k] for k in order])
+        out.append({"templates": T, "top": "Top"})
+    # the same names at different depths: two parents, each with its own distinct `Gate`
+    T = {"E0": gate("E0", "Gate", "and", "factory"), "E1": gate("E1", "Gate", "or", "factory"),
+         "E2": gate("E2", "Wrap", "xor", "kw", child="E0"), "E3": gate("E3", "Wrap", "and", "kw", child="E1"),
+         "E4": gate("E4", "Gate", "xor", "factory")}
+    T["Top"] = top(["E2", "E3", "E4", "E0"])
+    out.append({"templates": T, "top": "Top"})
+    return out
+
+
 def corpus_designs():
     """fixed minimal designs, always run first: every (formal kind, actual kind, direction) combination of a
     typed-view / slice actual whose VHDL type differs from the formal's (the association needs a conversion)"""
@@ -827,7 +941,7 @@ def make_cases(ctx):
     rng = ctx.rng
     n = ctx.scale(56, 420)
     cases = []
-    for design in corpus_designs():
+    for design in corpus_designs() + gate_corpus():
         top = design["templates"]["Top"]
         in_ports = [(p[0], p[2], p[3]) for p in top["ports"] if p[1] == "in" and p[0] != "clk"]
         out_ports = [(p[0], p[2], p[3]) for p in top["ports"] if p[1] == "out"]
@@ -839,6 +953,7 @@ def make_cases(ctx):
         views = (k % 2 == 1)
         g = Gen(rng, depth, fan, views)
         design = g.design()
+        assign_names(rng, design, "clash" if k % 4 >= 2 else "unique")
         top = design["templates"]["Top"]
         in_ports = [(p[0], p[2], p[3]) for p in top["ports"] if p[1] == "in" and p[0] != "clk"]
         out_ports = [(p[0], p[2], p[3]) for p in top["ports"] if p[1] == "out"]
@@ -853,7 +968,7 @@ def run(ctx: Ctx):
                 "architecture body / inside a concurrent context / inside `with cohdl.always`) over generated leaf entities "
                 "(concurrent assignments on slices, clocked registers with defaults); actuals: whole signals, constant slices, "
                 "bit indices, typed views (.unsigned/.signed/.bitvector, odd-numbered designs only), on inputs and outputs, "
-                "keyword arguments in random order; each design rendered hierarchically and hand-inlined, both compiled and "
+                "keyword arguments in random order; declared entity names unique or clashing (>=3 distinct templates of one name, case variants, renamed forms, labels, parent / top name, reserved words; 23 fixed naming designs first); each design rendered hierarchically and hand-inlined, both compiled and "
                 "simulated on the same random input sequence, sampled before and after every rising edge.  non-trivial = "
                 "at least one instance and the outputs change over time; distinct = distinct design source")
     cases = make_cases(ctx)
@@ -886,6 +1001,23 @@ def run(ctx: Ctx):
         n_model += bad["model"]
         n_struct += bad["struct"]
         n_rej += bad["rejected"]
+    # second phase (batched): the entities of renamed / name-sharing templates on their own
+    st = [(c, x) for c in cases for x in c.get("standalone", [])]
+    if st:
+        answers = lean_io.query("C12", [f"flat {sx_template(c['design'], n)} | {lean_inputs(inp, ip)}" for c, (n, ip, op, inp, en) in st])
+        sims = fork_map(_sim_task, [(c["hier"]["vhdl"], ip, op, inp, en) for c, (n, ip, op, inp, en) in st], fresh=False, chunk=8)
+        for (c, (n, ip, op, inp, en)), ans, r in zip(st, answers, sims):
+            ctx.dist["renamed-entity-checked-standalone"] += 1
+            r = r[1] if r[0] == "ok" else {"err": "other", "msg": r[1]}
+            nat = rows_as_nat(r["rows"]) if "rows" in r else None
+            if "err" in r or (nat is not None and nat != ans.split(";")):
+                n_struct += 1
+                t = c["design"]["templates"][n]
+                ctx.report("entity-behaviour", f"entity `{en}`, to which the instances of template {n} (declared name {t.get('cname', n)}) are bound, "
+                           f"does not behave like that template: {r.get('msg') or nat} vs simFlat {ans}",
+                           {"hier_src": c["hier_src"], "inline_src": c["inline_src"], "inputs": c["inputs"], "in_ports": c["in_ports"],
+                            "out_ports": c["out_ports"], "design_sexpr": sx_template(c["design"], "Top"), "vhdl": c["hier"]["vhdl"],
+                            "check": "structure", "template": n, "entity": en, "template_inputs": inp})
     if n_rej * 5 > len(cases):
         from .common import InfraError
         raise InfraError(f"{n_rej} of {len(cases)} generated designs are rejected in BOTH renderings: the generator no longer produces accepted designs ({ctx.notes[:2]})")
@@ -921,9 +1053,9 @@ def judge(ctx, c, quiet=False):
         return bad
     # ---- structure of the emitted library (hierarchical rendering)
     try:
-        sfails, soft = check_structure(design, hier["vhdl"], c["m_emit"])
+        sfails, soft, bound = check_structure(design, hier["vhdl"], c["m_emit"])
     except Exception as e:  # noqa - emitted text outside the known subset
-        sfails, soft = [("unparsable", f"the emitted hierarchical library cannot be analysed: {type(e).__name__}: {e}"[:300])], {}
+        sfails, soft, bound = [("unparsable", f"the emitted hierarchical library cannot be analysed: {type(e).__name__}: {e}"[:300])], {}, {}
     illtyped = [f for f in sfails if f[0].startswith("portmap-illtyped")]
     for sig, msg in sfails:
         bad["struct"] = 1
@@ -939,6 +1071,18 @@ def judge(ctx, c, quiet=False):
                    {**replay, "vhdl": hier["vhdl"], "check": "structure",
                     "correspondence": "emitHier d (dropDefault / drivenPlain) = declarations of the emitted architecture"},
                    no_failing_input=True)
+    # ---- every renamed / name-sharing template: the entity its instances are bound to, simulated on its own, behaves
+    #      like the template (Lean simFlat of the template's subtree)
+    if not sfails and bound:
+        T = design["templates"]
+        used = [n for n in topo_names(design) if n != design["top"] and n in bound]
+        lows = [T[n].get("cname", n).lower() for n in used]
+        sel = [n for n in used if lows.count(T[n].get("cname", n).lower()) > 1 or bound[n] != T[n].get("cname", n)][:4]
+        rng = __import__("random").Random(len(c["hier_src"]))
+        for n in sel:
+            ip = [(p[0], p[2], p[3]) for p in T[n]["ports"] if p[1] == "in" and p[0] != "clk"]
+            op = [(p[0], p[2], p[3]) for p in T[n]["ports"] if p[1] == "out"]
+            c.setdefault("standalone", []).append((n, ip, op, gen_inputs(rng, ip, 4), bound[n]))
     # ---- behaviour
     hs, is_ = c["hier_sim"], c["inline_sim"]
     nontrivial = False
